@@ -477,7 +477,7 @@ AddItem(it) ==
 Next == \E it \in Opts \cup {In(n) : n \in Names} : AddItem(it)
 Spec == Init /\ [][Next]_items
 
-AllDevs == {"ArgcDesync", "OneCharName", "EmitQbeFile", "HeaderLinked"}
+AllDevs == {"ArgcDesync", "OneCharName", "EmitQbeFile", "HeaderLinked"}   \* ArgcDesync, OneCharName, HeaderLinked: fixed in /repo, off in the cfgs
 
 (* Design check: the driver's algorithm, with its known deviations repaired, realises the plan. *)
 Inv_Refines == Impl(Render(items), {}) \in Plans(items)
